@@ -29,8 +29,14 @@ Definition rt_domb (e : jext) (dim : nat) : bool :=
   && match sdim (hdr_of e) with Some d => (d =? dim) || (dim =? 3) || (dim =? 4) | None => false end
   && (dim <? ndim (hdr_of e)) && (2 <=? nth dim (shape (hdr_of e)) 0).
 
+(** what the correspondence needs: a valid nondegenerate extension and an existing axis with at least two positions.
+    The corpus cases of the open findings (trailing singleton shape, no slice dimension) lie outside [rt_domb]; the
+    model must reproduce the implementation there too. *)
+Definition ert_inputs_ok (e : jext) (dim : nat) : bool :=
+  validb e && nondegenerateb e && (dim <? ndim (hdr_of e)) && (2 <=? nth dim (shape (hdr_of e)) 0).
+
 Definition check_ert (c : ert_case) : bool :=
-  rt_domb (er_ext c) (er_dim c) && res_eqb ext_eqb (run_ert c) (er_obs c).
+  ert_inputs_ok (er_ext c) (er_dim c) && res_eqb ext_eqb (run_ert c) (er_obs c).
 
 Definition show_ert (c : ert_case) := (rt_domb (er_ext c) (er_dim c), run_ert c).
 
